@@ -39,7 +39,26 @@ def run(ctx):
     if not any(l["err"] for l in rows) or all(l["err"] for l in rows):
         raise vlib.Infra("vacuous overflow rows")
     fails += ch.validate(ctx, ofiles, "c12-overflow")
+    # per-block consumption is all-or-nothing: direct Consume sequences on the real fees.Manager ...
+    rc, out = vlib.go_driver(ctx, "internal/fees", "^TestVerifConsume$", env={"VERIF_SCENARIOS": ctx.pick(200, 3000)},
+                             files=["verif_consume_test.go"])
+    if rc != 0:
+        raise vlib.Infra("consume recorder failed:\n" + out[-2000:])
+    cfiles = vlib.scenario_files(ctx, "cs")
+    nref = sum(1 for f in cfiles for l in vlib.read_ndjson(f) if l.get("ev") == "consume" and not l["ok"])
+    ctx.add("consume_calls_refused", nref)
+    cf = vlib.validate_scenarios(ctx, "FeeConsume_Trace", "FeeConsume_Trace.cfg", cfiles, label="consume", signature_fn=ch.sig)
+    for f in cfiles:
+        os.remove(f)
+    # ... and through the builder, which skips transactions that do not fit (builder-side consumption must equal the
+    # sum of the included transactions' units: Block_Trace "build-units-consumed")
+    _b = importlib.util.spec_from_file_location("c02", os.path.join(os.path.dirname(__file__), "C02.py"))
+    c02 = importlib.util.module_from_spec(_b)
+    _b.loader.exec_module(c02)
+    bfiles = c02.record_builds(ctx, ctx.pick(25, 300))
+    fails += ch.validate(ctx, bfiles, "c12-build")
     vlib.report_failures(ctx, fails, ch.describe)
+    vlib.report_failures(ctx, cf, lambda f: "diag=%s line=%s" % (f.get("diag"), str(f.get("event"))[:200]))
     ctx.cov["rule"] = ("seeded chains of blocks with random rule unit costs (0..25), key chunk suffixes 1..3 (and off-by-one "
                        "suffix variants of the same key name), 0-6 transactions, per-block maxima drawn so that roughly a third "
                        "of the blocks overflow some dimension; distinct_nontrivial = distinct block shapes")
